@@ -47,6 +47,11 @@ pub enum Entry {
     StartupFull,
     /// `--fetch-currency`.
     Fetch,
+    /// Start-up with `[limits] enabled = true` (`repl::interactive_sandboxed`):
+    /// the process loads its own context, then starts the sandbox child, which
+    /// loads the configuration again (`RinkService::create`) before it answers
+    /// the handshake; two queries are then put through the sandbox.
+    StartupSandboxed,
 }
 
 #[derive(Serialize, Deserialize, Clone, Debug, PartialEq)]
@@ -195,6 +200,8 @@ enum ProcResult {
     Loaded(Result<(String, Result<String, String>), String>),
     /// Fetch: Ok(message) / Err
     Fetched(Result<String, String>),
+    /// StartupSandboxed: Ok((unit answer, USD answer)) through the sandbox / Err
+    Sandboxed(Result<(String, String), String>),
     Crashed,
     Hung,
     Panicked(String),
@@ -277,15 +284,150 @@ fn result_code(r: &ProcResult) -> u64 {
         ProcResult::Loaded(Err(_)) => 4,
         ProcResult::Fetched(Ok(_)) => 5,
         ProcResult::Fetched(Err(_)) => 6,
+        ProcResult::Sandboxed(Ok(_)) => 10,
+        ProcResult::Sandboxed(Err(_)) => 11,
         ProcResult::Crashed => 7,
         ProcResult::Hung => 8,
         ProcResult::Panicked(_) => 9,
     }
 }
 
+// ----- the sandboxed start-up ------------------------------------------------------
+
+/// What `cli/src/service.rs` is to the sandbox: `create` loads the
+/// configuration (and with it the currency cache) exactly as RinkService does,
+/// `handle` evaluates one line.
+struct SimRinkService {
+    ctx: std::sync::Mutex<rink_core::Context>,
+}
+
+impl rink_sandbox::Service for SimRinkService {
+    type Req = String;
+    type Res = Result<String, String>;
+    type Config = Cfg;
+
+    fn program() -> Option<PathBuf> {
+        Some("rink-service".into())
+    }
+    fn args(_config: &Cfg) -> Vec<std::ffi::OsString> {
+        vec!["--service".into()]
+    }
+    fn create(config: Cfg) -> Result<Self, std::io::Error> {
+        let ctx = config::load(&make_config(&config)).unwrap();
+        Ok(SimRinkService {
+            ctx: std::sync::Mutex::new(ctx),
+        })
+    }
+    fn handle(&self, request: String) -> Result<String, String> {
+        let mut ctx = self.ctx.lock().unwrap();
+        rink_core::one_line(&mut ctx, &request)
+    }
+    fn timeout(_config: &Cfg) -> Duration {
+        Duration::from_secs(10)
+    }
+}
+
+/// The machine travels to the thread of whichever process needs it.
+type MachineSlot = std::sync::Arc<std::sync::Mutex<Option<Machine>>>;
+
+fn service_main(slot: MachineSlot) {
+    struct GiveBack(MachineSlot);
+    impl Drop for GiveBack {
+        fn drop(&mut self) {
+            if let Some(m) = mach::uninstall() {
+                *self.0.lock().unwrap_or_else(|e| e.into_inner()) = Some(m);
+            }
+        }
+    }
+    let m = slot.lock().unwrap_or_else(|e| e.into_inner()).take();
+    match m {
+        Some(m) => {
+            mach::install(m);
+        }
+        // No machine (a second child while the first still holds it): the
+        // child cannot even read its configuration.
+        None => return,
+    }
+    let _back = GiveBack(slot);
+    let alloc = rink_sandbox::Alloc::new(usize::MAX);
+    rink_sandbox::become_child::<SimRinkService, _>(&alloc);
+}
+
+/// The real parent.rs / child.rs / frame.rs between this process and a child
+/// that runs the real `config::load` over the same simulated disk. The child's
+/// stdout is the pipe that carries the frames, as in the real thing.
+fn sandboxed_conversation(cfg: &Cfg) -> Result<(String, String), String> {
+    use simkit::world::RunEnd;
+    use simkit::{World, WorldCfg};
+    // The fault plan and the kill point of this run are the parent's; the
+    // child is another process.
+    let (parent_steps, parent_faults, parent_counts) = mach::with(|m| {
+        let f = std::mem::take(&mut m.faults);
+        m.crash = None;
+        m.event("sandbox_child_start", 0, 0);
+        (m.trace.len(), f, m.op_counts.clone())
+    });
+    let machine = mach::uninstall().expect("machine");
+    let slot: MachineSlot = std::sync::Arc::new(std::sync::Mutex::new(Some(machine)));
+    let world = World::new(
+        WorldCfg {
+            step_cap: 400_000,
+            ..WorldCfg::default()
+        },
+        Chooser::replay(Vec::new()),
+    );
+    let slot2 = slot.clone();
+    world.register_program(
+        "rink-service",
+        std::sync::Arc::new(move |_args| service_main(slot2.clone())),
+    );
+    let cfg2 = cfg.clone();
+    let main = async move {
+        let sandbox = rink_sandbox::Sandbox::<SimRinkService>::new(cfg2)
+            .await
+            .map_err(|e| format!("Sandbox::new: {}", e))?;
+        let mut answers = Vec::new();
+        for q in ["3 foot -> meter", "1 EUR -> USD"] {
+            match sandbox.execute(q.to_string()).await {
+                Ok(resp) => answers.push(match resp.result {
+                    Ok(s) => s,
+                    Err(s) => format!("ERR {}", s),
+                }),
+                Err(e) => return Err(format!("`{}` through the sandbox: {}", q, e)),
+            }
+        }
+        drop(sandbox);
+        Ok((answers[0].clone(), answers[1].clone()))
+    };
+    let (report, out) = world.run(main);
+    let machine = slot
+        .lock()
+        .unwrap_or_else(|e| e.into_inner())
+        .take()
+        .expect("the machine did not come back from the sandbox child");
+    mach::install(machine);
+    mach::with(|m| {
+        // Kill-point sweeps address the parent's own steps only, and which of
+        // its faults fired is judged on its own operations.
+        m.trace.truncate(parent_steps);
+        m.faults = parent_faults;
+        m.op_counts = parent_counts;
+        m.event("sandbox_conversation_end", report.steps, matches!(report.end, RunEnd::Completed) as u64);
+        m.stat("sandboxed_startups");
+    });
+    match (report.end, out) {
+        (RunEnd::Completed, Some(r)) => r,
+        (end, _) => Err(format!(
+            "the conversation with the sandbox child never finished ({:?}): the parent waits for a frame that does not come",
+            end
+        )),
+    }
+}
+
 /// One process from its entry point to its end, on the current thread's machine.
 fn run_entry(entry: Entry, cfg: &Cfg) -> ProcResult {
     let cfg2 = make_config(cfg);
+    let cfg_copy = cfg.clone();
     let r = std::panic::catch_unwind(std::panic::AssertUnwindSafe(move || match entry {
         Entry::Startup => {
             if cfg2.currency.enabled {
@@ -310,6 +452,11 @@ fn run_entry(entry: Entry, cfg: &Cfg) -> ProcResult {
         Entry::Fetch => ProcResult::Fetched(
             config::force_refresh_currency(&cfg2.currency).map_err(|e| format!("{:#}", e)),
         ),
+        Entry::StartupSandboxed => match config::load(&cfg2) {
+            // `interactive_sandboxed` loads a context of its own first
+            Err(e) => ProcResult::Sandboxed(Err(format!("load() failed in the parent: {:#}", e))),
+            Ok(_ctx) => ProcResult::Sandboxed(sandboxed_conversation(&cfg_copy)),
+        },
     }));
     match r {
         Ok(v) => v,
@@ -923,6 +1070,24 @@ fn oracle(sc: &Scenario, obs: &[RunObs]) -> Option<Violation> {
                     }
                 }
             },
+            // "Rink still starts ... and answers non-currency queries", with
+            // sandboxing enabled too.
+            ProcResult::Sandboxed(r) => match r {
+                Err(e) => {
+                    return Some(Violation {
+                        clause: "does-not-start".into(),
+                        detail: format!("{}: with `[limits] enabled = true` rink does not get as far as answering a query: {}", tag, e),
+                    })
+                }
+                Ok((unit, _usd)) => {
+                    if !unit.contains("0.9144") {
+                        return Some(Violation {
+                            clause: "does-not-start".into(),
+                            detail: format!("{}: `3 foot -> meter` through the sandbox answered {:?}", tag, unit),
+                        });
+                    }
+                }
+            },
             _ => {}
         }
     }
@@ -1110,7 +1275,11 @@ impl Harness for C20 {
         for i in 0..nruns {
             version += 1;
             let entry = if full && (i == 0 || rng.chance(1, 3)) {
-                Entry::StartupFull
+                if rng.chance(1, 3) {
+                    Entry::StartupSandboxed
+                } else {
+                    Entry::StartupFull
+                }
             } else if rng.chance(1, 3) {
                 Entry::Fetch
             } else {
@@ -1163,6 +1332,10 @@ impl Harness for C20 {
         // directory at the same time as one of the runs.
         let pair = if rng.chance(1, 6) {
             let with_run = rng.below(runs.len() as u64) as usize;
+            if runs[with_run].entry == Entry::StartupSandboxed {
+                // one thing at a time: the sandboxed start-up has a child of its own
+                runs[with_run].entry = Entry::StartupFull;
+            }
             version += 1;
             let entry = if full && rng.chance(1, 4) {
                 Entry::StartupFull
@@ -1239,6 +1412,7 @@ impl Harness for C20 {
                     ProcResult::Loaded(Err(e)) => format!("Err({})", e),
                     ProcResult::Fetched(Ok(m)) => format!("Ok({})", m.split(" after ").next().unwrap_or("")),
                     ProcResult::Fetched(Err(e)) => format!("Err({})", e.lines().next().unwrap_or("")),
+                    ProcResult::Sandboxed(r) => format!("sandboxed {:?}", r),
                     ProcResult::Crashed => "KILLED".into(),
                     ProcResult::Hung => "HUNG".into(),
                     ProcResult::Panicked(m) => format!("PANIC {}", m),
@@ -1263,6 +1437,7 @@ impl Harness for C20 {
                         ProcResult::Loaded(Err(e)) => format!("Err({})", e),
                         ProcResult::Fetched(Ok(m)) => format!("Ok({})", m.split(" after ").next().unwrap_or("")),
                         ProcResult::Fetched(Err(e)) => format!("Err({})", e.lines().next().unwrap_or("")),
+                        ProcResult::Sandboxed(r) => format!("sandboxed {:?}", r),
                         ProcResult::Crashed => "KILLED".into(),
                         ProcResult::Hung => "HUNG".into(),
                         ProcResult::Panicked(m) => format!("PANIC {}", m),
@@ -1290,6 +1465,7 @@ impl Harness for C20 {
                 Entry::Startup => bump(&mut stats, "entry_startup", 1),
                 Entry::StartupFull => bump(&mut stats, "entry_startup_full_load", 1),
                 Entry::Fetch => bump(&mut stats, "entry_fetch_currency", 1),
+                Entry::StartupSandboxed => bump(&mut stats, "entry_startup_sandboxed", 1),
             }
             if o.after != o.before {
                 bump(&mut stats, "cache_replaced", 1);
@@ -1320,7 +1496,7 @@ impl Harness for C20 {
                     // the following start reads, not on the 40 ms definitions load.
                     let mut lite_sc = base_sc.clone();
                     for run in lite_sc.runs.iter_mut().chain(lite_sc.pair.iter_mut().map(|p| &mut p.b)) {
-                        if run.entry == Entry::StartupFull {
+                        if run.entry == Entry::StartupFull || run.entry == Entry::StartupSandboxed {
                             run.entry = Entry::Startup;
                         }
                     }
@@ -1493,7 +1669,7 @@ impl Harness for C20 {
                 c.runs[i].gap_s = 1;
                 out.push(c);
             }
-            if r.entry == Entry::StartupFull {
+            if r.entry == Entry::StartupFull || r.entry == Entry::StartupSandboxed {
                 let mut c = sc.clone();
                 c.runs[i].entry = Entry::Startup;
                 out.push(c);
@@ -1587,7 +1763,10 @@ impl Harness for C20 {
     }
 
     fn label(&self, sc: &Scenario) -> String {
-        let full = sc.runs.iter().any(|r| r.entry == Entry::StartupFull);
+        let full = sc
+            .runs
+            .iter()
+            .any(|r| r.entry == Entry::StartupFull || r.entry == Entry::StartupSandboxed);
         format!(
             "{}{}{}",
             if full { "with-full-load" } else { "lite" },
@@ -1597,7 +1776,8 @@ impl Harness for C20 {
     }
 
     fn rule(&self) -> String {
-        "One evaluation = one seeded history of 1..5 process runs (start-up via load_live_currency, full load(), or --fetch-currency) \
+        "One evaluation = one seeded history of 1..5 process runs (start-up via load_live_currency, full load(), --fetch-currency, or - one full-load run in three - \
+         a start-up with sandboxing enabled: load(), then the real sandbox parent/child code with a child that runs load() again before its handshake and answers two queries) \
          of the real cli/src/config.rs over one persistent simulated file system, from a seeded prior cache state \
          {absent, fresh, stale, mtime in the future, unreadable fresh/stale, empty, truncated, one bit flipped}, with per-run server behaviour \
          {200 complete with/without Content-Length, 200 complete but not currency data, 200 cut after k bytes (close or reset), stall mid-body, 3xx/4xx/5xx with error page, \
@@ -1632,6 +1812,8 @@ impl Harness for C20 {
             "std::fs, SystemTime": "stub (simkit in-memory FS, virtual clock)",
             "curl, tempfile, dirs": "stub (stand-in crates with the same call surface)",
             "cli/src/main.rs argument dispatch": "stub (the harness calls load / force_refresh_currency as main does)",
+            "sandbox/src/{parent,child,frame}.rs between rink and its sandbox child (sandboxed start-ups)": "real",
+            "cli/src/service.rs, cli/src/repl.rs (sandboxed start-ups)": "stub (a Service whose create() calls the real config::load as RinkService does; two fixed queries)",
         })
     }
 
@@ -1654,6 +1836,7 @@ impl Harness for C20 {
             "entry_startup_full_load",
             "entry_fetch_currency",
             "leftover_temp_files_seen",
+            "entry_startup_sandboxed",
             "two_process_runs",
             "process_switch",
             "both_processes_transferred",
